@@ -249,6 +249,29 @@ Proof.
 Qed.
 Print Assumptions launch_rsp_exactly_once_after_all.
 
+(** A launch whose work-group filter selects NO work-group (lr_wgs = []) is
+    covered by the theorems above without any side condition (launch_ok and
+    ev_ok hold vacuously for it): it is started, occupies its dispatcher, and
+    is answered exactly once like any other launch; spelled out, its response
+    is sent with no MapWGReq ever sent for it.  (That it IS answered, within
+    the bound, is [launches_answered_within_bound] / [dispatch_progress], whose
+    ranking function does not depend on the launch being non-empty; see also
+    [demo_empty_launch].) *)
+Theorem empty_launch_answered_without_mapping : forall c cus n evs f,
+  let s := Dispatcher.run (init_cp c cus n) evs in
+  crashed (sh s) = false -> In f (g_hist (sh s)) -> lr_wgs (f_launch f) = [] ->
+  f_sent f = [] /\ f_ndisp f = 0%N /\ f_ncomp f = 0%N /\
+  In (lr_id (f_launch f)) (g_rretr s ++ drv_out (sh s)).
+Proof.
+  intros c cus n evs f s Hc Hf He.
+  destruct (launch_rsp_exactly_once_after_all c cus n evs Hc) as [Hr [_ Hall]]. fold s in Hr, Hall.
+  destruct (Hall f Hf) as [Hd [Hcm Hl]]. rewrite He in *. simpl in *.
+  split; [destruct (f_sent f); [reflexivity|discriminate]|].
+  split; [exact Hd|]. split; [rewrite Hcm; exact Hd|].
+  rewrite Hr. apply (in_map (fun f0 => lr_id (f_launch f0))). exact Hf.
+Qed.
+Print Assumptions empty_launch_answered_without_mapping.
+
 (** Resource safety of the whole pool: whatever the dispatchers (any number,
     overlapping launches) and the environment do, every CU of the shared pool
     satisfies the Layer-1 invariant at all times (disjoint regions inside the
@@ -388,6 +411,23 @@ Proof.
   eexists. split; [vm_compute; reflexivity|]. split.
   - repeat constructor.
   - vm_compute. repeat split; reflexivity.
+Qed.
+
+(** one dispatcher: an ordinary launch, two launches whose filter selects no
+    work-group, an ordinary one again: all four are answered, in order, once. *)
+Definition demo_empty_evs : list ev :=
+  [ELaunch (mkLaunch 1 [mkDemand 1 16 4 256 0; mkDemand 1 16 4 256 0]); ETick; ETick; ETick; ERetrCU; ETick; ERetrCU;
+   EComplete [1000000%N]; EComplete [1000001%N]; ETick; ETick; ETick; ERetrDrv;
+   ELaunch (mkLaunch 2 []); ETick; ETick; ETick; ETick; ERetrDrv;
+   ELaunch (mkLaunch 3 []); ETick; ETick; ETick; ETick; ERetrDrv;
+   ELaunch (mkLaunch 4 [mkDemand 1 16 4 256 0]); ETick; ETick; ETick; ERetrCU; EComplete [1000002%N]; ETick; ETick; ETick; ERetrDrv].
+Example demo_empty_launch :
+  let s := Dispatcher.run (init_cp (mkCpCfg RoundRobin 0 0 1 4096) [mkCfg 128 1024 [(1024, 4)%N]] 1) demo_empty_evs in
+  crashed (sh s) = false /\ Forall ev_ok demo_empty_evs /\
+  g_rretr s = [1; 2; 3; 4]%N /\
+  map (fun f => length (f_sent f)) (g_hist (sh s)) = [2; 0; 0; 1] /\ running (disps s) = [].
+Proof.
+  vm_compute. split; [reflexivity|]. split; [repeat constructor|]. repeat split; reflexivity.
 Qed.
 
 (** two CUs, two dispatchers, two overlapping launches (3 and 2 work-groups);
